@@ -1,6 +1,6 @@
 (* C09  Bytes the guest transmits reach the host once, in order. *)
 From Coq Require Import ZArith List Bool.
-From Dmd Require Import Model.Bits Model.Fifo Model.Mem Model.Duart Proofs.FifoProofs Proofs.PortProofs Proofs.DuartProofs Proofs.DeviceRefine Gen.GenDuart Proofs.RegMapTie Model.Bus Proofs.BusDuart.
+From Dmd Require Import Model.Bits Model.Fifo Model.Mem Model.Duart Proofs.FifoProofs Proofs.PortProofs Proofs.DuartProofs Proofs.DeviceRefine Gen.GenDuart Proofs.RegMapTie Model.Bus Proofs.BusDuart Gen.GenPort Proofs.PortTie.
 Import ListNotations.
 Open Scope Z_scope.
 
@@ -91,3 +91,10 @@ Theorem C09_guest_tx_exactly_once_in_order :
     end.
 Proof. exact guest_tx_exactly_once. Qed.
 Print Assumptions C09_guest_tx_exactly_once_in_order.
+
+(* enable / disable transmitter and the loop-back test are the source's functions (translated on every run) *)
+Theorem C09_transmitter_helpers_are_source_functions :
+  forall (A : Type) (p : port A),
+    enable_tx p = g_enable_tx p /\ disable_tx p = g_disable_tx p /\ loopback p = g_loopback p.
+Proof. intros A p. repeat apply conj; [apply enable_tx_is_source | apply disable_tx_is_source | apply loopback_is_source]. Qed.
+Print Assumptions C09_transmitter_helpers_are_source_functions.
